@@ -206,7 +206,7 @@ func FamiliesC09(tier string) []world.Family {
 }
 
 func OptionsC09(tier string) Options {
-	return Options{MaxRetries: 1, SizeVariants: []uint{0}, FinMode: FinAll, L1OrphanEpilogue: true, L2ReorgEpilogue: true, DroppedL1ForkPrologue: true}
+	return Options{MaxRetries: 1, SizeVariants: []uint{0}, FinMode: FinAll, L1OrphanEpilogue: true, L2ReorgEpilogue: true, DroppedL1ForkPrologue: true, BothFlows: true}
 }
 
 const RuleC09 = "unit = one scenario (operation sequence of a world family, all sequences up to the length bound, de-duplicated by " +
@@ -216,7 +216,7 @@ const RuleC09 = "unit = one scenario (operation sequence of a world family, all 
 	"every imported bridge exit in it is verified. non-trivial = at least one certificate built; distinct = distinct (scenario, " +
 	"stage, storage state, finalized position, leaf count, claim, leaf index). After the last stage: (a) the L1 node answers with another hash for the " +
 	"last, never finalized L1 block the syncer holds (orphaned), finalized pointer at and past it: a certificate built then must not name a root containing its leaves; " +
-	"(b) the L2 reorg epilogue of C03. Before the first stage (choice point): the L1 info store synced a competing L1 fork first — the same transactions with two " +
+	"(b) the L2 reorg epilogue of C03. Every execution is run with the PP flow and with the aggchain-prover flow (stand-in prover; a certificate recorded InError keeps its proof, so its retry re-sends with the stored proof, root and leaf count). Before the first stage (choice point): the L1 info store synced a competing L1 fork first — the same transactions with two " +
 	"leaf-adding ones of one L1 block in the other order, one alternative per such pair — and was rewound from block 1."
 
 func BoundsC09(tier string) map[string]any {
